@@ -1706,14 +1706,28 @@ def r4_evaluated(L, repo, spec, W, pdus):
         if v[0] == "raise":
             fam.skipped = getattr(fam, "skipped", 0) + 1
             return
-        d = lab.run(lambda: bytes(lab.meth(message(cls, attrs), "gen_msg", legacy)))
+        p = lab.run(lambda: lab.meth(message(cls, attrs), "gen_msg", legacy))
+        if p[0] == "ok" and not isinstance(p[1], (bytes, bytearray, memoryview)):
+            raise c16.MachUnknown("gen_msg() returns a %s object" % type(p[1]).__name__)
+        d = (p[0], bytes(p[1])) if p[0] == "ok" else p
         if d[0] != "ok":
             fam.fail("%s: validate() accepts the message but gen_msg() does not produce a datagram (%s)" % (what, c16.fmt_out(d)))
             return
-        got = lab.e_dec(pdu, d[1])
+        # the definition gets the datagram AS PRODUCED (the object gen_msg() returned: a mutable buffer stays one) and
+        # the same octets as the immutable bytes a socket delivers; both must be accepted, with the same values
+        got = lab.e_dec(pdu, p[1])
         if got[0] != "ok":
-            fam.fail("%s: datagram %s... (%d octets) is not accepted by the definition (%s)" % (what, d[1][:12].hex(), len(d[1]), c16.fmt_out(got)))
+            fam.fail("%s: datagram %s... (%d octets, the %s object gen_msg() returned) is not accepted by the definition (%s)" % (
+                what, d[1][:12].hex(), len(d[1]), type(p[1]).__name__, c16.fmt_out(got)))
             return
+        if type(p[1]) is not bytes:
+            alt = lab.e_dec(m.call(m.getattr_(tp, pdus[pid][2]), [], {}), d[1])
+            if alt[0] != "ok":
+                fam.fail("%s: datagram %s... (%d octets, as bytes) is not accepted by the definition (%s)" % (what, d[1][:12].hex(), len(d[1]), c16.fmt_out(alt)))
+                return
+            if alt[1] != got[1]:
+                fam.fail("%s: datagram %s... decodes differently as bytes and as the %s gen_msg() returned" % (what, d[1][:12].hex(), type(p[1]).__name__))
+                return
         vals, n = got[1]
         vals = {ALIAS.get(k, k): v for k, v in vals.items()}
         diff = {k: (vals.get(k, "<absent>"), v) for k, v in expect.items() if (vals.get(k, "<absent>") != v)}
